@@ -30,6 +30,7 @@ EXPLANATION = (
     "scaling of encode_power / decode_power is an inverse pair inside is_in_range; (R5) export limit and DoD setters write the id the "
     "getter reads, DoD through the same involution 100 - x on both sides. Device state after the write sequence is not decided."
     " (R7) read_setting asks the inverter on every path that returns a value derived from the object's state (no remembered answers), so a getter after a setter sees the new value."
+    " (R8) valid arguments are accepted: a setter path that ends without a write is infeasible for power 1..100, SoC 0..100, DoD 0..100, export limit >= 0; (R3 switch-offset) eco_mode_N_switch is the on_off byte of eco_mode_N; (R4) the recognisers' power bound admits the group encoded for 1 %."
 )
 
 
@@ -181,7 +182,12 @@ def r6(ctx: Ctx, rep: Report):
                     if not forced and v["ok"]:
                         v.update(ok=False, path=p)
         if not verdicts:
-            raise AnalysisError("%s.set_operation_mode: no path reaches encode_charge / encode_discharge" % famname)
+            if not any(isinstance(x, ast.Attribute) and x.attr in ("encode_charge", "encode_discharge") for x in ast.walk(prog.cls(famname).methods["set_operation_mode"].node)):
+                raise AnalysisError("%s.set_operation_mode: no path reaches encode_charge / encode_discharge" % famname)
+            for enc in ("encode_charge", "encode_discharge"):
+                rep.violation("C19.R6", "forced-type:%s:%s:unreachable" % (famname, enc), prog.cls(famname).methods["set_operation_mode"].loc(),
+                              "%s.set_operation_mode: no feasible path reaches %s: the emulated mode cannot be set" % (famname, enc))
+            continue
         for enc, v in sorted(verdicts.items()):
             failed_read = v["path"] is not None and any(ev.kind == "catch" for ev in v["path"].events)
             rep.check(v["ok"], "C19.R6", "force-type:%s:%s" % (famname, enc), s.loc(),
@@ -533,7 +539,10 @@ def r3(ctx: Ctx, rep: Report):
                       bad="%s.set_operation_mode(%s): %s" % (famname, sorted(sel), "eco_mode_1 is not written exactly once with %s of the requested power/SoC" % want_enc if not (ok_enc and args_ok) else (
                           "groups 2-4 are not all switched off (writes: %s)" % ids if not ok_off else "the encoder object is not the eco_mode_1 setting")))
         if n == 0:
-            raise AnalysisError("%s.set_operation_mode has no emulated eco branch" % famname)
+            if not any(isinstance(x, ast.Attribute) and x.attr in ("ECO_CHARGE", "ECO_DISCHARGE") for x in ast.walk(s.node)):
+                raise AnalysisError("%s.set_operation_mode does not mention the emulated eco modes" % famname)
+            rep.violation("C19.R3", "eco-groups:%s:none" % famname, s.loc(),
+                          "%s.set_operation_mode: no path selects ECO_CHARGE / ECO_DISCHARGE and completes (the branch is unreachable or always raises): the emulated modes offered by get_operation_modes(True) cannot be set" % famname)
     switch_offsets(ctx, rep)
 
 
@@ -827,6 +836,16 @@ def _check_conjunct(prog, enc: FuncInfo, cj: ast.expr, lay, fields, kind: str) -
             return ["power field is %s, not -|p| masked to 16 bits (recogniser needs power < 0)" % src]
         if not want_neg and not is_pos:
             return ["power field is %s, not +|p| (recogniser needs power > 0)" % src]
+        # the smallest magnitude the setter can encode is 1 % (power 1..100; ECO_MODE scaling is the identity): the
+        # recogniser's bound must let it through
+        c = cv(rhs)
+        import operator as o
+        f = {ast.Lt: o.lt, ast.Gt: o.gt, ast.LtE: o.le, ast.GtE: o.ge}.get(type(op))
+        if f is None or not isinstance(c, int):
+            return ["recogniser tests power with %s, not a comparison with a constant" % txt]
+        edge = -1 if want_neg else 1
+        if not f(edge, c):
+            return ["the recogniser needs %s, which the group encoded for power = 1 %% (field value %d) does not satisfy" % (txt, edge)]
         return []
     if attr == "on_off":
         # template byte (unsigned) e, read back signed: e - 256 must equal the recogniser's right-hand side
